@@ -6,7 +6,7 @@ INFO = {
                "through (no path builds a later-class stage before an earlier one, every constructor is a known "
                "class, each stage's successor is the value built so far); repeated --select are wrapped in reverse "
                "and repeated --sort-by in forward order; the start/complete protocol reaches every stage on every "
-               "non-error path and end-of-input is signalled exactly once, from complete() only. The unique stage forwards a row iff its key was new and keys rows on the selected values; the limiter, extracted as a finite machine by partial evaluation, forwards exactly rows S..S+T-1 for skip 0..3 x take none/0..3. No stage but the limiter answers Break on its own, and a pass-through stage (pre-sets, select, filter, split, unique) keeps a row back only on the result of its own getter on that row (or of HashSet::insert), never on state it carries from row to row. The sort stage's comparator is the documented order (rank, delegates, lexicographic cascade) and ContextKey's equality / hash are the derived ones.",
+               "non-error path and end-of-input is signalled exactly once, from complete() only. The unique stage forwards a row iff its key was new and keys rows on the selected values; the limiter, extracted as a finite machine by partial evaluation, forwards exactly rows S..S+T-1 for skip 0..6 x take none/0..6 (0..12 in the thorough tier). No stage but the limiter answers Break on its own, and a pass-through stage (pre-sets, select, filter, split, unique) keeps a row back only on the result of its own getter on that row (or of HashSet::insert), never on state it carries from row to row. The sort stage's comparator is the documented order (rank, delegates, lexicographic cascade) and ContextKey's equality / hash are the derived ones.",
     "not_decided": "That each stage computes the right list transformation on run-time values, hence not the "
                    "equality with a reference pipeline interpreter.",
     "trusted": ["sa/tables/pipeline_order.toml (transcribed from the property statement and the CLI help)"],
